@@ -281,7 +281,9 @@ func saneLengths(w []byte) bool {
 	if len(w) < 16 {
 		return true
 	}
-	rd := func(p int) int32 { return int32(uint32(w[p]) | uint32(w[p+1])<<8 | uint32(w[p+2])<<16 | uint32(w[p+3])<<24) }
+	rd := func(p int) int32 {
+		return int32(uint32(w[p]) | uint32(w[p+1])<<8 | uint32(w[p+2])<<16 | uint32(w[p+3])<<24)
+	}
 	if bl := rd(4); bl > 1<<20 {
 		return false
 	}
